@@ -702,7 +702,8 @@ def gen_revfam(rnd):
     shared = rnd.random() < 0.6                        # every revision includes fsh (which includes fsh2)
     shape = rnd.choice(["both", "nested-only"])        # include fsh; include fsh2;  |  include fsh; (fsh2 through fsh)
     texts, flat, expect = [], [], dict(users={}, derived={}, shared=shared, revs=revs)
-    sh_body = "container sc { leaf sa { type string; } } identity SHI { base COMMON; } identity SHP { base f:COMMON; } "
+    sh_body = "container sc { leaf sa { type string; } } identity SHI { base COMMON; } identity SHP { base f:COMMON; } " \
+              "leaf sref { type identityref { base COMMON; } } "
     sh2_body = "container sd { leaf sb { type string; } } "
     for r in revs:
         y = r[:4]
@@ -710,8 +711,9 @@ def gen_revfam(rnd):
         incl = ("include fleg; " if leg_of == r else "") + \
                (("include fsh; include fsh2; " if shape == "both" else "include fsh; ") if shared else "")
         rest = '%s identity COMMON; identity ONLY%s; typedef t { type string; units "rev%s"; } ' \
-               'grouping g { leaf m%s { type string; } } leaf only%s { type string; } ' % (
-                   "".join("revision %s; " % x for x in reversed(older)), y, y, y, y)
+               'grouping g { leaf m%s { type string; } } leaf only%s { type string; } ' \
+               'leaf dv { type string; } deviation "/f:dv" { deviate add { default "dev%s"; } } ' % (
+                   "".join("revision %s; " % x for x in reversed(older)), y, y, y, y, y)
         texts.append(("f" + y, 'module f { namespace "urn:f"; prefix f; %s%s}' % (incl, rest)))
         flat.append(("f" + y, 'module f { namespace "urn:f"; prefix f; %s%s%s}' % (
             "include fleg; " if leg_of == r else "", rest, (sh_body + sh2_body) if shared else "")))
@@ -779,12 +781,17 @@ def revfam_case(texts, order, stage=None):
 
 
 def revfam_trees(line):
-    """canonical tree of every module revision of the last run, by (name, revision)"""
+    """canonical tree of every module revision of the last run, by (name, revision); the identityref leaf of the
+    shared submodule is one statement in all revisions: its values are compared by check_revfam, not here"""
     j = json.loads(line)
     out = {}
     for m in j["runs"][-1].get("modules") or []:
         if not m["sub"]:
-            out["%s@%s" % (m["name"], m.get("rev"))] = _cnode(m["tree"])
+            t = _cnode(m["tree"])
+            for c in t["children"]:
+                if c["name"] == "sref" and c.get("type"):
+                    c["type"]["idvalues"] = []
+            out["%s@%s" % (m["name"], m.get("rev"))] = t
     return out
 
 
@@ -827,6 +834,21 @@ def check_revfam(line, expect):
                            "another revision, or the submodule's nodes are missing)" % (m.get("rev"), cont, got, want)
             if sorted(k for k in kids if k.startswith("only")) != ["only" + m["rev"][:4]]:
                 return "revision %s of f has the leaves %s" % (m.get("rev"), sorted(kids))
+            # the identityref leaf of the shared submodule: in the latest revision's tree it is based on the latest
+            # revision's identity (in an older revision's tree the one shared statement may show the latest's or its own)
+            latest = expect["revs"][-1]
+            got = {_nid(v) for v in (kids["sref"].get("type") or {}).get("idvalues") or []}
+            ok = [expect["derived"][latest]["f:COMMON"]] + ([expect["derived"][m["rev"]]["f:COMMON"]] if m["rev"] != latest else [])
+            if got not in ok:
+                return "revision %s of f: identityref sref of the shared submodule has the values %s, expected %s" % (
+                    m.get("rev"), sorted(got), " or ".join(str(sorted(x)) for x in ok))
+        if m["name"] == "f":
+            kids = {c["name"]: c for c in m["tree"].get("children") or []}
+            own = ["dev" + m["rev"][:4]]
+            dflt = kids["dv"].get("default")
+            if (m["rev"] == expect["revs"][-1] and dflt != own) or (dflt not in (None, [], own)):
+                return "revision %s of f: leaf dv has default %s; the deviation of a revision applies to that revision " \
+                       "(the latest one's must be applied: %s)" % (m.get("rev"), dflt, own)
         if m["name"] == "g" and expect.get("ginc"):
             kids = {c["name"]: c for c in m["tree"].get("children") or []}
             got = sorted(c["name"] for c in (kids.get("gc") or {}).get("children") or [])
